@@ -154,6 +154,23 @@ func serveOwn(conn net.Conn, ex *kmipserver.BatchExecutor, o *obs) {
 	}
 }
 
+// sharedOptions: see runOne
+var sharedOptions bool
+var optCache = map[string]kmipclient.Option{}
+
+func cachedVersions(list []kmip.ProtocolVersion) kmipclient.Option {
+	k := fmt.Sprint(list)
+	if o, ok := optCache[k]; ok {
+		return o
+	}
+	backing := make([]kmip.ProtocolVersion, 0, len(list)+9)
+	backing = append(backing, list...)
+	backing = append(backing, list[0])
+	o := kmipclient.WithKmipVersions(backing...)
+	optCache[k] = o
+	return o
+}
+
 func runOne(C []int, enforced int, nreq int, serve func(net.Conn, *obs)) *obs {
 	o := &obs{Adopted: none, Offered: []int{}, Sent: []int{}, Reply: []int{}}
 	dial := func(ctx context.Context) (net.Conn, error) {
@@ -176,7 +193,20 @@ func runOne(C []int, enforced int, nreq int, serve func(net.Conn, *obs)) *obs {
 			vs = append(vs, ver(c))
 		}
 	}
-	opts = append(opts, kmipclient.WithKmipVersions(vs...))
+	if sharedOptions {
+		// configuration is a value: the options are built once per distinct list (with a duplicate and spare capacity, as a caller
+		// slicing a larger array would), reused by every later dial, and the set is given by two options
+		h := len(vs)/2 + 1
+		if h > len(vs) {
+			h = len(vs)
+		}
+		opts = append(opts, cachedVersions(vs[:h]))
+		if h < len(vs) {
+			opts = append(opts, cachedVersions(vs[h:]))
+		}
+	} else {
+		opts = append(opts, kmipclient.WithKmipVersions(vs...))
+	}
 	if enforced != none {
 		opts = append(opts, kmipclient.EnforceVersion(ver(enforced)))
 	}
@@ -282,7 +312,9 @@ func TestReplay(t *testing.T) {
 			out.Emit(map[string]any{"case": n, "peer": "scripted", "diffs": diffs, "expect": c, "got": o})
 		}
 	}
-	// the library's own executor as a conformant peer, for every client set x server set
+	// the library's own executor as a conformant peer, for every client set x server set; in this pass the option values are shared
+	sharedOptions = true
+	defer func() { sharedOptions = false }()
 	own := 0
 	nreq := 3
 	for _, c := range cases {
